@@ -110,6 +110,7 @@ def make_config(seed, tier="quick"):
         logon_hb=random.Random(seed ^ 0xC1208).choice([0, 0, 0, 1, 7 * hb, 1000]),
         prelude_mode=random.Random(seed ^ 0xC1290).choice(["peer_drop", "peer_drop", "app_logout"]),
         prelude_pause_s=random.Random(seed ^ 0xC1291).choice([0.4, 1.2, 2.3, 3.4]),
+        prelude_drop_kind=random.Random(seed ^ 0xC1292).choice([None, None, "reset", "pipe", "timeout"]),
         prelude_after=round(r.uniform(0.05, 1.2) * hb, 3),
         prelude_reconnect=round(r.uniform(0.1, 3.0), 3),
         p_slow_close=r.choice([0.0, 0.5, 1.0]) if prelude else 0.0,
@@ -264,6 +265,14 @@ class WatchdogSim(PeerSim):
             return
         if self.peer.connected:
             self.prelude_state = "dropped"
+            kind = self.cfg.get("prelude_drop_kind")
+            live = [c for c in self.net.conns if not c.broken and not c.closed[0] and not c.closed[1]]
+            if kind and live:
+                # the first connection dies with a transport error (ECONNRESET / EPIPE / ETIMEDOUT) instead of a clean
+                # close: the reader gets the error, wait_closed() of the endpoint's own close re-raises it
+                self.fault("prelude_peer_drop_with_transport_error_" + kind)
+                self.fire(["break", live[-1].cid, kind, kind, 0])
+                return
             self.fault("prelude_peer_drop")
             self.peer.close()
         else:
